@@ -10,6 +10,7 @@ import (
 // C19.verify / C19.bind).
 func c19Round3(c *Ctx) {
 	c19LightBlockHeight(c)
+	c19NoBackwards(c)
 	c19MetaTxSigned(c)
 	c19MalformedResults(c)
 	const pk = "consensus/cometbft/stateless"
@@ -49,6 +50,13 @@ func c19LightBlockHeight(c *Ctx) {
 	if fn == nil {
 		return
 	}
+	vb := Ev{Name: "clb.ValidateBasic(chainID)", Fn: fn}
+	for _, call := range callsIn(fn) {
+		if strings.HasSuffix(calleeName(call), "types.(LightBlock).ValidateBasic") || strings.HasSuffix(calleeName(call), "types.(*LightBlock).ValidateBasic") {
+			vb.Ins = append(vb.Ins, call)
+		}
+	}
+	c.successOnlyVia("C19.verify", fn, vb, "a light block is handed to the light client only after its own consistency check (validator set hash, commit for this header, chain id): backwards verification below the trust root only walks the header hash chain and binds neither the validator set nor the commit")
 	c.SuccessRequiresCond("C19.verify", fn, "signed header height == requested height", `^\*+consensus/cometbft/light\.DecodeLightBlock\(.*\)#0\.SignedHeader\.Header\.Height == param:height$`, "a light block answered for another height (genuine and correctly signed, under an envelope with the requested height) is rejected; otherwise the stateless node serves the data of that other height")
 }
 
@@ -107,6 +115,28 @@ func c19MetaTxSigned(c *Ctx) {
 	}
 	open := CallsTo(fn, "sigTx.Open", fnSTOpen, "")
 	c.successOnlyVia("C19.state", fn, open, "the block metadata transaction a state root is read from is correctly signed")
+}
+
+// c19NoBackwards (F51): the light client is never asked to verify a height below its first trusted header. CometBFT's
+// backwards verification returns the block it fetched first without comparing it with the header chain it then walks,
+// so a provider's forged first answer is accepted; the lazily initialised client (through which every verification
+// goes) delegates only for height <= 0 (latest), an empty store, or height >= first trusted height.
+func c19NoBackwards(c *Ctx) {
+	fn := c.needFn("C19.verify", "consensus/cometbft/light.(*lazyClient).VerifyLightBlockAtHeight")
+	if fn == nil {
+		return
+	}
+	var del []ssa.Instruction
+	for _, call := range callsIn(fn) {
+		if strings.HasSuffix(calleeName(call), "cometbft/light.(*Client).VerifyLightBlockAtHeight") {
+			del = append(del, call)
+		}
+	}
+	c.GuardedByAny("C19.verify", fn, "height >= first trusted height", []string{
+		`^param:height <= 0$`,
+		`FirstTrustedHeight\(.*\)#0 <= 0$`,
+		`^.*FirstTrustedHeight\(.*\)#0 <= param:height$`,
+	}, Ev{Name: "cometbft VerifyLightBlockAtHeight", Fn: fn, Ins: del}, "heights below the first trusted header are refused (they could only be verified backwards, which does not bind the returned block)")
 }
 
 func c20Round3(c *Ctx, ix *Index) {
